@@ -28,3 +28,19 @@ def register(reg):
     L("lemma:c08_keyfile_roundtrip_aes", params={"kf": "ref:KeyFile", "text": "str|bytes", "method": "any"}, props=("C08",),
       requires={"open": "truthy(kf._KeyFile__key) and len(kf._KeyFile__key) == 32",
                 "aes": "AES_AVAILABLE and (method == 'aes' or method == 'best')"})
+
+
+def register_c11(reg):
+    for nm in ("fields", "validators"):
+        reg.contract("lemma:c11_%s_upto_monotone" % nm, params={"schema": "ref:Schema", "config": "ref:Config", "i": "int", "n": "int"},
+                     props=("C11",), requires={"range": "0 <= i and i <= n"},
+                     invariants={0: {"range": "typeis(k, 'int') and i <= k and k <= n",
+                                     "ind": "implies(not %s_ok_upto_def(schema, config, i), not %s_ok_upto_def(schema, config, k))" % (nm, nm)}})
+
+
+_reg0 = register
+
+
+def register(reg):
+    _reg0(reg)
+    register_c11(reg)
